@@ -129,7 +129,6 @@ Proof.
   pose proof (nopanic c WF s Hr) as Hp.
   destruct (drain c s Hp Hq Hnr) as [Hd Hcd].
   - intros w Hw i Hs. rewrite Hsrc in Hs. inversion Hs; subst. exact Hin.
-  - intros w Hw. rewrite Hsrc. discriminate.
   - intros w Hw. pose proof (simple_reachable c SC s Hr w) as Hs.
     destruct (wc (ws s w)) as [| | ? [|[] ?] | |]; simpl in Hs; auto; inversion Hs; auto.
   - split; [exact Hd|]. split.
@@ -228,7 +227,6 @@ Proof.
   pose proof (nopanic c WF s Hr) as Hp.
   destruct (drain c s Hp Hq Hnr) as [Hd Hcd].
   - intros w Hw i Hs. rewrite Hsrc in Hs. inversion Hs; subst. apply Hin; auto.
-  - intros w Hw. rewrite Hsrc. discriminate.
   - intros w Hw. pose proof (simple_reachable c SC s Hr w) as Hs.
     destruct (wc (ws s w)) as [| | ? [|[] ?] | |]; simpl in Hs; auto; inversion Hs; auto.
   - assert (Hm : forall i, i < par c -> mine i (rcvd s 0) = sent s i).
